@@ -1,17 +1,18 @@
 ----------------------------- MODULE AgentTorrent -----------------------------
 (* Property C03: an agent commits a blob only after every piece is verified.
 
-   lib/torrent/storage/agentstorage.Torrent with concurrent writers.  A WritePiece call is two
-   steps, split where a harness can hold a real writer (inside the PieceReader, i.e. after
-   tryMarkDirty and before any byte is written):
+   lib/torrent/storage/agentstorage.Torrent with concurrent writers.  A WritePiece call is four
+   steps, split where the harness can hold a real writer (verifPoint gates of build tag verif, and
+   the PieceReader handed to WritePiece):
 
-     Start(w, i, c)   index / length checks, complete / dirty checks, tryMarkDirty
-     Finish(w)        copy the payload into the file region, compare the checksum, then either
-                      markEmpty (mismatch) or status byte + markComplete + count + commit when
-                      every piece is complete
+     Check(w, i, c)   index / length checks and the lock-free "exit quickly" complete / dirty checks
+     TryDirty(w)      piece.tryMarkDirty: the one writer that finds the piece empty owns it
+     Write(w)         copy the payload into the file region, compare the checksum, then either
+                      markEmpty (mismatch) or status byte + markComplete + count
+     Commit(w)        if every piece is counted complete: move the file to the cache, committed
 
-   Payload classes c: good | corrupt (right length, wrong bytes) | short | long (wrong length) ;
-   indices outside 1..N are "badindex".                                                      *)
+   Between any two of these steps other writers run.  Payload classes c: good | corrupt (right
+   length, wrong bytes) | short | long (wrong length); indices outside 1..N are "badindex".    *)
 EXTENDS Integers, Sequences, FiniteSets
 CONSTANTS N, Writers, PieceLen, LastLen
 Pieces == 1..N
@@ -26,30 +27,46 @@ Idle == [pc |-> "idle", i |-> 0, c |-> "none"]
 Init == /\ pstate = [i \in Pieces |-> "empty"] /\ region = [i \in Pieces |-> "zero"]
         /\ ncomplete = 0 /\ committed = (N = 0) /\ wr = [w \in Writers |-> Idle]
 
-\* reply of Start, evaluated in the pre-state ("gated" = the writer is now inside the piece reader)
-StartRes(i, c) == IF i \notin Pieces THEN "badindex"
+\* reply of Check, evaluated in the pre-state ("checked" = the writer goes on to tryMarkDirty)
+CheckRes(i, c) == IF i \notin Pieces THEN "badindex"
                   ELSE IF c \in {"short", "long"} THEN "badlength"
                   ELSE IF pstate[i] = "complete" THEN "piececomplete"
                   ELSE IF pstate[i] = "dirty" THEN "conflict"
-                  ELSE "gated"
-Start(w, i, c) ==
+                  ELSE "checked"
+Check(w, i, c) ==
   /\ wr[w].pc = "idle"
-  /\ IF StartRes(i, c) = "gated"
-     THEN pstate' = [pstate EXCEPT ![i] = "dirty"] /\ wr' = [wr EXCEPT ![w] = [pc |-> "writing", i |-> i, c |-> c]]
-     ELSE UNCHANGED <<pstate, wr>>
+  /\ wr' = IF CheckRes(i, c) = "checked" THEN [wr EXCEPT ![w] = [pc |-> "checked", i |-> i, c |-> c]] ELSE wr
+  /\ UNCHANGED <<pstate, region, ncomplete, committed>>
+
+\* tryMarkDirty decides again, under the piece lock ("gated" = the writer is now inside the piece reader)
+TryRes(w) == LET i == wr[w].i IN
+             IF pstate[i] = "dirty" THEN "conflict" ELSE IF pstate[i] = "complete" THEN "piececomplete" ELSE "gated"
+TryDirty(w) ==
+  /\ wr[w].pc = "checked"
+  /\ IF TryRes(w) = "gated"
+     THEN pstate' = [pstate EXCEPT ![wr[w].i] = "dirty"] /\ wr' = [wr EXCEPT ![w].pc = "writing"]
+     ELSE UNCHANGED pstate /\ wr' = [wr EXCEPT ![w] = Idle]          \* the loser leaves the piece alone
   /\ UNCHANGED <<region, ncomplete, committed>>
 
-FinishRes(w) == IF wr[w].c = "good" THEN "ok" ELSE "error"
-Finish(w) ==
+WriteRes(w) == IF wr[w].c = "good" THEN "written" ELSE "error"
+Write(w) ==
   /\ wr[w].pc = "writing"
   /\ LET i == wr[w].i good == wr[w].c = "good" IN
      /\ region' = [region EXCEPT ![i] = IF good THEN "good" ELSE "bad"]
      /\ pstate' = [pstate EXCEPT ![i] = IF good THEN "complete" ELSE "empty"]
      /\ ncomplete' = IF good THEN ncomplete + 1 ELSE ncomplete
-     /\ committed' = (committed \/ (good /\ ncomplete + 1 = N))
-  /\ wr' = [wr EXCEPT ![w] = Idle]
+     /\ wr' = [wr EXCEPT ![w] = IF good THEN [@ EXCEPT !.pc = "written"] ELSE Idle]
+  /\ UNCHANGED committed
 
-Next == \E w \in Writers : Finish(w) \/ \E i \in 0..(N + 1), c \in Classes : Start(w, i, c)
+\* the writer that moved the file reports ok; one that finds the file already moved may report ok or an error
+CommitRes(w) == IF ncomplete = N /\ committed THEN {"ok", "error"} ELSE {"ok"}
+Commit(w) ==
+  /\ wr[w].pc = "written"
+  /\ committed' = (committed \/ ncomplete = N)
+  /\ wr' = [wr EXCEPT ![w] = Idle]
+  /\ UNCHANGED <<pstate, region, ncomplete>>
+
+Next == \E w \in Writers : TryDirty(w) \/ Write(w) \/ Commit(w) \/ \E i \in 0..(N + 1), c \in Classes : Check(w, i, c)
 Spec == Init /\ [][Next]_vars
 
 (* what a client observes *)
@@ -64,8 +81,9 @@ CompleteIsGood     == \A i \in Pieces : pstate[i] = "complete" => region[i] = "g
 ProgressMatches    == ncomplete = Cardinality(Bitfield)
 OneWriterPerPiece  == \A w1, w2 \in Writers : (w1 # w2 /\ wr[w1].pc = "writing" /\ wr[w2].pc = "writing") => wr[w1].i # wr[w2].i
 DirtyHasWriter     == \A i \in Pieces : pstate[i] = "dirty" <=> \E w \in Writers : wr[w].pc = "writing" /\ wr[w].i = i
-CommittedWhenAll   == (ncomplete = N) => committed
-Inv == CommitOnlyVerified /\ CompleteIsGood /\ ProgressMatches /\ OneWriterPerPiece /\ DirtyHasWriter /\ CommittedWhenAll
+CommittedWhenAll   == (ncomplete = N /\ \A w \in Writers : wr[w].pc # "written") => committed
+CountBounded       == ncomplete <= N
+Inv == CommitOnlyVerified /\ CompleteIsGood /\ ProgressMatches /\ OneWriterPerPiece /\ DirtyHasWriter /\ CommittedWhenAll /\ CountBounded
 \* a verified piece is never touched again; a commit is never undone
 Stable == [][(\A i \in Pieces : pstate[i] = "complete" => (pstate'[i] = "complete" /\ region'[i] = "good")) /\ (committed => committed')]_vars
 =============================================================================
